@@ -58,6 +58,24 @@
 //!
 //! NOT asserted: which concurrent map write wins; what undo / redo should restore; the content of
 //! replicas whose `recv` differ; block boundaries.
+//!
+//! LEFT OUT on the unchanged tree (recipe at `World::do_deliver`; `"known_shapes":false` in a case
+//! switches the exclusion off): known finding K6 - inside one merged batch a block that lacks
+//! nothing is stashed behind an earlier block of its client that lacks a dependency. (A second
+//! shape, found by this target - a merged batch whose blocks wait for each other across two clients
+//! left a stash that waited for the wrong client - is repaired in /repo; see HISTORY there.)
+//!
+//! ENUMERATION (`families`): breadth first over the number of steps, all families in turn at every
+//! depth; a history whose state (full exports, stash, `recv`, the oracle's tables, undo stacks, kind
+//! of the last step) was reached before is not extended again; adjacent independent steps are
+//! enumerated in one order only. Every ordered pair of `IDS` runs the small text alphabet; the wider
+//! alphabets (removals, two-element insertions, two-operation transactions, merged batches,
+//! duplicates, three replicas, map, nested array with undo / redo) run on representative ids.
+//!
+//! SANITY (README.md): seeded/C04a-1, -2, -3 and own mutants of `Item::resolve_conflict` (client
+//! comparison reversed: (S6) only; `conflicting_items.clear()` dropped in case 2; stop at
+//! `self.right` dropped) are found at `--universe 6`; the dropped `right_origin` break is not
+//! (argued to be an early exit without effect on the result).
 
 use crate::evt::{at, fail, finish, finish_replay, guarded, Found, Hunt, Stop, Tally};
 use crate::json::J;
@@ -241,6 +259,8 @@ pub struct Case {
     pub undo: bool,
     /// Oracle (S6).
     pub tie_break: bool,
+    /// Leave the documented shape K6 of the unchanged tree out (see `World::do_deliver`).
+    pub known_shapes: bool,
     pub steps: Vec<Step>,
 }
 
@@ -254,6 +274,9 @@ impl Case {
         ];
         if !self.tie_break {
             op.push(("tie_break_oracle", J::Bool(false)));
+        }
+        if !self.known_shapes {
+            op.push(("known_shapes", J::Bool(false)));
         }
         op.push(("steps", J::Arr(steps.iter().map(|s| s.json()).collect())));
         vec![("target", J::str(&self.target)), ("variant", J::str(&self.family)), ("op", J::obj(op))]
@@ -340,6 +363,7 @@ impl Case {
             gc: flag("gc", true)?,
             undo: flag("undo_manager", false)?,
             tie_break: flag("tie_break_oracle", true)?,
+            known_shapes: flag("known_shapes", true)?,
             steps,
         })
     }
@@ -592,6 +616,7 @@ struct Elem {
     /// Updates that delete it.
     dels: u64,
     /// Replica that created it.
+    #[allow(dead_code)]
     rep: usize,
 }
 
@@ -672,6 +697,9 @@ struct Model {
     before: HashMap<(usize, usize), (usize, usize)>,
     /// Updates per sender.
     sent: Vec<usize>,
+    /// Per replica: updates that reached it in a merged batch in the KNOWN shape K6 (see
+    /// `World::do_deliver`); while one of them still lacks a dependency the replica is no party to (S1).
+    tainted: Vec<u64>,
 }
 
 fn bit(set: u64, i: usize) -> bool {
@@ -697,6 +725,11 @@ impl Model {
                 return c;
             }
         }
+    }
+
+    /// The replica holds a merged batch in the known shape K6 that has not been resolved yet.
+    fn k6(&self, r: usize) -> bool {
+        self.tainted[r] & !self.closed(self.recv[r]) != 0
     }
 
     fn set_json(&self, s: u64) -> J {
@@ -908,7 +941,7 @@ impl Model {
         Ok(View { content, text, arr })
     }
 
-    /// (S4), (S6), (S3) on one replica state; records the orders it shows.
+    /// (S4), (S3), (S6) on one replica state; records the orders it shows.
     fn check_order(&mut self, r: usize, v: &View, step: usize, pos: &J, tie_break: bool, clients: &[u64]) -> Result<(), Failure> {
         // position of every identified element: (list, index)
         let mut lists: Vec<Vec<Option<usize>>> = vec![v.text.clone(), v.arr.iter().map(|c| c.id).collect()];
@@ -973,6 +1006,32 @@ impl Model {
                 }
             }
         }
+        // (S3)
+        for l in &lists {
+            for i in 0..l.len() {
+                for j in i + 1..l.len() {
+                    if let (Some(x), Some(y)) = (l[i], l[j]) {
+                        if let Some((st, rep)) = self.before.get(&(y, x)) {
+                            return Err(fail(
+                                "two elements appear in opposite relative order in two replica states",
+                                api,
+                                J::obj(vec![
+                                    ("state", here(self)),
+                                    ("shows_first", self.elem_json(x)),
+                                    ("shows_second", self.elem_json(y)),
+                                    (
+                                        "opposite_order_seen",
+                                        J::obj(vec![("after_step", J::Num(*st as i64)), ("on_replica", J::Num(*rep as i64 + 1))]),
+                                    ),
+                                ]),
+                                v.content.json(),
+                            ));
+                        }
+                        self.before.entry((x, y)).or_insert((step, r));
+                    }
+                }
+            }
+        }
         // (S6)
         if tie_break {
             for (i, p) in self.places.iter().enumerate() {
@@ -1000,32 +1059,6 @@ impl Model {
                             ]),
                             v.content.json(),
                         ));
-                    }
-                }
-            }
-        }
-        // (S3)
-        for l in &lists {
-            for i in 0..l.len() {
-                for j in i + 1..l.len() {
-                    if let (Some(x), Some(y)) = (l[i], l[j]) {
-                        if let Some((st, rep)) = self.before.get(&(y, x)) {
-                            return Err(fail(
-                                "two elements appear in opposite relative order in two replica states",
-                                api,
-                                J::obj(vec![
-                                    ("state", here(self)),
-                                    ("shows_first", self.elem_json(x)),
-                                    ("shows_second", self.elem_json(y)),
-                                    (
-                                        "opposite_order_seen",
-                                        J::obj(vec![("after_step", J::Num(*st as i64)), ("on_replica", J::Num(*rep as i64 + 1))]),
-                                    ),
-                                ]),
-                                v.content.json(),
-                            ));
-                        }
-                        self.before.entry((x, y)).or_insert((step, r));
                     }
                 }
             }
@@ -1120,6 +1153,7 @@ impl<'a> World<'a> {
             m: Model {
                 recv: vec![0; n],
                 sent: vec![0; n],
+                tainted: vec![0; n],
                 ..Default::default()
             },
             executed: Vec::new(),
@@ -1151,6 +1185,10 @@ impl<'a> World<'a> {
         for (k, a) in among.iter().enumerate() {
             for b in among.iter().skip(k + 1) {
                 if self.m.recv[*a] != self.m.recv[*b] {
+                    continue;
+                }
+                if self.m.k6(*a) || self.m.k6(*b) {
+                    K6_SKIPS.fetch_add(1, std::sync::atomic::Ordering::Relaxed);
                     continue;
                 }
                 for x in [*a, *b] {
@@ -1192,6 +1230,25 @@ impl<'a> World<'a> {
             }
         }
         Ok(())
+    }
+
+    /// `VX_CONV_TRACE=1`: what every replica holds, on stderr (debugging aid).
+    fn trace(&self) {
+        if std::env::var_os("VX_CONV_TRACE").is_none() {
+            return;
+        }
+        eprintln!("--- after step {}: {:?}", self.executed.len(), self.executed.last().map(|s| s.json().to_string()));
+        for (r, rep) in self.reps.iter().enumerate() {
+            let t = rep.doc.transact();
+            eprintln!("  replica {} shows {}", r + 1, rep.content().json());
+            eprintln!("    integrated {:?}", decode(&t.encode_diff_v1(&StateVector::default()), false));
+            eprintln!(
+                "    stash {:?} missing {:?} pending ds {:?}",
+                t.store().pending_update().map(|p| &p.update),
+                t.store().pending_update().map(|p| &p.missing),
+                t.store().pending_ds()
+            );
+        }
     }
 
     fn register(&mut self, r: usize, parts: Vec<(Vec<u8>, Vec<u8>)>, has_del: bool, by_undo: bool) -> usize {
@@ -1248,9 +1305,10 @@ impl<'a> World<'a> {
                 changed = self.m.recv[*to] != before;
             }
         }
+        let _ = actor;
+        self.trace();
         if full {
             let all: Vec<usize> = (0..self.reps.len()).collect();
-            let _ = actor;
             self.converged(&all, true)?;
         }
         Ok(changed)
@@ -1311,6 +1369,44 @@ impl<'a> World<'a> {
         // update events of the receiving transaction are not the replica's own updates
         let _ = self.reps[to].take_logs();
         self.m.recv[to] |= bits;
+        // KNOWN on the unchanged tree (finding K6 of the gapsync target, open): inside ONE update the blocks of a
+        // client are a queue; when an earlier block of the queue lacks a dependency the later blocks of the
+        // same client are stashed with it, although delivered on their own they are integrated (behind a
+        // gap). So two replicas holding the same INCOMPLETE set differ when one of them got it as a merged
+        // batch. Minimal recipe (search without this exclusion: family map_batches_3_replicas, 4 steps):
+        //   replica 1: map_set a; map_set a; map_set b   (updates [1,0] [1,1] [1,2])
+        //   replica 3 <- merge_updates_v1([1,1],[1,2]): shows nothing (b stashed with the overwrite of a)
+        //   replica 2 <- [1,2], then [1,1] as captured: shows b
+        // Excluded, exactly this shape: a merged batch holding two updates of one sender, the earlier of
+        // which lacks a dependency when the batch arrives; the receiver is left out of (S1) until
+        // everything in that batch has its dependencies (the closing phase always gets there).
+        //
+        // HISTORY. On the tree of 2026-09-26 16:00 this target found (not known before; REPAIRED in /repo since:
+        // `BlockPicker::switch` in update.rs now notes the dependency of EVERY block it puts on the stack, not
+        // only the one at which the walk gives up; nothing is excluded for it any more, the recipe is found
+        // again in 7 steps when the repair is reverted): a stuck update on a COMPLETE set (C02 / C01). Clients
+        // 2, 1, 7 on replicas 1, 2, 3, map key a:
+        //   replica 1: map_set a                [1,0] = 2#0
+        //   replica 3 <- [1,0]; map_set a       [3,0] = 7#0, origin 2#0
+        //   replica 1 <- [3,0]; map_set a       [1,1] = 2#1, origin 7#0
+        //   replica 2 <- merge_updates_v2([3,0],[1,1])   stash {7#0, 2#1}, `PendingUpdate::missing` was {7: 0}
+        //   replica 2 <- [1,0]                  2#0 was integrated, the stash NOT retried: map empty, while
+        //                                       replica 1 shows a = 3 and both hold the same three updates.
+        // The walk went 7#0 -> (needs client 2) -> took 2#1 from the batch -> (needs 7#0, whose queue is the one
+        // being walked) -> noted `missing[7] = 0` and gave up; that 7#0 waits for 2#0 was noted nowhere.
+        if upds.len() > 1 && self.case.known_shapes {
+            let cs = self.m.closed(self.m.recv[to]);
+            for (s1, k1) in upds {
+                for (s2, k2) in upds {
+                    if s1 == s2 && k1 < k2 {
+                        let (i, j) = (self.m.find(*s1, *k1).unwrap(), self.m.find(*s2, *k2).unwrap());
+                        if !bit(cs, i) {
+                            self.m.tainted[to] |= (1u64 << i) | (1u64 << j);
+                        }
+                    }
+                }
+            }
+        }
         Ok(())
     }
 
@@ -1810,6 +1906,7 @@ impl<'a> World<'a> {
                 self.do_deliver(r, &[(s, k)], r % 2 == 1)?;
                 self.current = None;
                 self.executed.push(step);
+                self.trace();
                 self.observe(r)?;
                 let all: Vec<usize> = (0..n).collect();
                 self.converged(&all, false)?;
@@ -1819,7 +1916,12 @@ impl<'a> World<'a> {
         self.converged(&all, true)?;
         // one merged batch of everything, applied to a fresh replica
         let v2 = self.case.steps.len() % 2 == 1;
-        let reference = self.reps[0].content();
+        // (a replica left out because of a documented shape is no reference)
+        let sound = match (0..n).rev().find(|r| !self.m.k6(*r)) {
+            Some(r) => r,
+            None => return Ok(()),
+        };
+        let reference = self.reps[sound].content();
         let everything: Vec<(usize, usize)> = self.m.upds.iter().map(|u| (u.sender, u.seq)).collect();
         let mut blobs: Vec<&[u8]> = Vec::new();
         for u in &self.m.upds {
@@ -1872,11 +1974,11 @@ impl<'a> World<'a> {
             if v2 { "merge_updates_v2 -> Update::decode_v2 -> apply_update (fresh replica)" } else { "merge_updates_v1 -> Update::decode_v1 -> apply_update (fresh replica)" },
         )?;
         at("ReadTxn::encode_state_as_update_v2(&empty)");
-        let full = self.reps[n - 1].doc.transact().encode_state_as_update_v2(&StateVector::default());
+        let full = self.reps[sound].doc.transact().encode_state_as_update_v2(&StateVector::default());
         feed(
             &full,
             true,
-            "the full state of the last replica",
+            "the full state of a replica",
             "ReadTxn::encode_state_as_update_v2(&empty) -> Update::decode_v2 -> apply_update (fresh replica)",
         )?;
         // the batch once more, to a replica that holds everything
@@ -2004,6 +2106,14 @@ impl<'a> World<'a> {
         let mut order: Vec<(usize, usize)> = self.m.before.keys().copied().collect();
         order.sort();
         order.hash(&mut fp);
+        // which extensions are enumerated depends on the last step (see `Family::children`): two
+        // histories are merged only when that is the same for both
+        match self.executed.last() {
+            None => 0u8.hash(&mut fp),
+            Some(Step::Deliver { to, .. }) => (1u8, *to).hash(&mut fp),
+            Some(Step::Txn { r, .. }) | Some(Step::Undo { r }) | Some(Step::Redo { r }) => (2u8, *r, changed).hash(&mut fp),
+        }
+        self.m.tainted.hash(&mut fp);
         if let Some(mgr) = &self.undo {
             info.can_undo = mgr.can_undo();
             info.can_redo = mgr.can_redo();
@@ -2337,6 +2447,9 @@ impl Family {
     }
 }
 
+/// Comparisons (S1) left out because of the known shape K6 (see `World::do_deliver`).
+static K6_SKIPS: std::sync::atomic::AtomicU64 = std::sync::atomic::AtomicU64::new(0);
+
 const ID_32_7: u64 = (1 << 32) + 7;
 const ID_32_1: u64 = (1 << 32) + 1;
 const ID_MAX: u64 = (1 << 53) - 1;
@@ -2359,7 +2472,7 @@ fn families(universe: u32, target: &str) -> Vec<Family> {
             if a != b {
                 let mut f = Family::base(&format!("ids_text_{}_{}", id_name(a), id_name(b)), "conv_seq", &[a, b]);
                 f.text = true;
-                f.depth = d(3).min(4);
+                f.depth = d(2).min(4);
                 f.max_txns = 3;
                 f.max_len = 3;
                 f.enc = Enc::ByReceiver;
@@ -2383,7 +2496,7 @@ fn families(universe: u32, target: &str) -> Vec<Family> {
         f.text = true;
         f.deletes = true;
         f.dups = true;
-        f.depth = d(0);
+        f.depth = d(0) + 1;
         f.max_txns = 4;
         f.enc = if ids[0] == 2 { Enc::V1 } else { Enc::ByReceiver };
         out.push(f);
@@ -2413,14 +2526,14 @@ fn families(universe: u32, target: &str) -> Vec<Family> {
         f.deletes = true;
         f.gc = false;
         f.dups = true;
-        f.depth = d(1);
+        f.depth = d(0);
         f.max_txns = 4;
         f.enc = Enc::V2;
         out.push(f);
         let mut f = Family::base("text_two_ops_1_2p32+1", "conv_seq", &[1, ID_32_1]);
         f.text = true;
         f.two_ops = true;
-        f.depth = d(2);
+        f.depth = d(1);
         f.max_txns = 3;
         f.enc = Enc::ByReceiver;
         out.push(f);
@@ -2429,8 +2542,18 @@ fn families(universe: u32, target: &str) -> Vec<Family> {
         let mut f = Family::base(&format!("text_3_replicas_{}_{}_{}", id_name(ids[0]), id_name(ids[1]), id_name(ids[2])), "conv_seq", &ids);
         f.text = true;
         f.deletes = true;
-        f.depth = d(1);
+        f.depth = d(0);
         f.max_txns = 4;
+        f.max_len = 3;
+        f.enc = Enc::ByReceiver;
+        out.push(f);
+    }
+    {
+        let mut f = Family::base("text_batches_3_replicas_1_7_2", "conv_seq", &[1, 7, 2]);
+        f.text = true;
+        f.batches = true;
+        f.depth = d(1);
+        f.max_txns = 3;
         f.max_len = 3;
         f.enc = Enc::ByReceiver;
         out.push(f);
@@ -2448,6 +2571,16 @@ fn families(universe: u32, target: &str) -> Vec<Family> {
         f.batches = ids[0] == 7;
         f.depth = if ids.len() == 2 { d(0) } else { d(1) };
         f.max_txns = 4;
+        f.enc = Enc::ByReceiver;
+        out.push(f);
+    }
+    {
+        // three replicas, merged batches: two replicas can hold the same INCOMPLETE set, packaged differently
+        let mut f = Family::base("map_batches_3_replicas_2_1_7", "conv_map", &[2, 1, 7]);
+        f.map = true;
+        f.batches = true;
+        f.depth = d(0);
+        f.max_txns = 3;
         f.enc = Enc::ByReceiver;
         out.push(f);
     }
@@ -2472,7 +2605,7 @@ fn families(universe: u32, target: &str) -> Vec<Family> {
         // nested array without undo: any delivery order of single updates
         let mut f = Family::base("nested_2_1", "conv_nested", &[2, 1]);
         f.nested = true;
-        f.depth = d(1);
+        f.depth = d(0);
         f.max_txns = 4;
         f.max_len = 3;
         f.enc = Enc::ByReceiver;
@@ -2517,6 +2650,7 @@ pub fn cmd_search(target: &str, universe: u32, jobs: usize, deadline: Option<Ins
                 gc: f.gc,
                 undo: f.undo,
                 tie_break: true,
+                known_shapes: true,
                 steps,
             };
             let last_level = d == f.depth;
@@ -2600,6 +2734,7 @@ pub fn cmd_search(target: &str, universe: u32, jobs: usize, deadline: Option<Ins
         ("cases_per_family", J::Obj(per_family)),
         ("distinct_states_extended", J::Num(states as i64)),
         ("histories_the_oracle_cannot_attribute", J::Num(skipped.load(std::sync::atomic::Ordering::Relaxed) as i64)),
+        ("comparisons_left_out_known_k6_packaging", J::Num(K6_SKIPS.load(std::sync::atomic::Ordering::Relaxed) as i64)),
     ];
     finish(target, universe, res, &h, extra)
 }
